@@ -5,7 +5,7 @@ import numpy as np
 
 from gen.dataset import random_spec
 from ref import templates as rt
-from vmon.core import call, same, hkey, scratch_dir
+from vmon.core import as_id, call, same, hkey, scratch_dir
 
 ID = 'C08'
 LEVEL = 'exploration'
@@ -132,7 +132,7 @@ def run_case(case, ctx):
                 if len(exp) > 1:
                     # count tie: any tied template may be the dominant one, but the model must make the same
                     # choice for the cluster's waveform and for the cluster's channel list
-                    rc = call(m.get_cluster_channels, c)
+                    rc = call(m.get_cluster_channels, as_id(c, c))
                     which = [t for t, n_ in zip(ts, cnt) if n_ == cnt.max()]
                     t_match = set(t for t, E in zip(which, exp) if np.allclose(D[c], E, atol=1e-6 * scale, rtol=1e-6))
                     if rc.ok:
@@ -154,7 +154,7 @@ def run_case(case, ctx):
             for c in multi[:3]:
                 ts = mm[c]
                 cnt = np.array([(st[sc == c] == t).sum() for t in ts], dtype=np.float64)
-                rr = call(m.get_cluster_mean_waveforms, c)
+                rr = call(m.get_cluster_mean_waveforms, as_id(c, c + 1))
                 if not rr.ok:
                     ctx.violation('raised', desc, 'get_cluster_mean_waveforms raised %r' % rr.exc, dict(f, exc=rr.exc_name), tb=rr.tb)
                     continue
@@ -185,7 +185,7 @@ def run_case(case, ctx):
                     sc2[move] = c
                     ts2 = sorted(set(st[sc2 == c].tolist()))
                     cnt2 = np.array([(st[sc2 == c] == t).sum() for t in ts2], dtype=np.float64)
-                    rr = call(m.get_cluster_mean_waveforms, c)
+                    rr = call(m.get_cluster_mean_waveforms, as_id(c, c + 1))
                     ctx.cell('after_inplace_curation')
                     if not rr.ok:
                         ctx.violation('raised', desc, 'get_cluster_mean_waveforms after an in-place update raised %r' % rr.exc,
